@@ -548,3 +548,6 @@ SHAPE_ONLY = {
     "isin": (sc_isin, lambda N: [("n", 1, N), ("m", 1, N), ("c", 1, N), ("c2", 1, N), ("e", 0, N)]),
     "searchsorted": (sc_searchsorted, lambda N: [("n", 1, N), ("m", 1, N), ("c", 1, N), ("c2", 1, N), ("e", 0, N)]),
 }
+# not walked task by task under C12/C17 (rechunk geometry is C05/C14's subject and the walk does not fit the wall budget; two of the four
+# indexing kinds suffice for the block-shape question)
+ROUTE_ONLY = {"rechunk[2d,small-memory]", "index[2d,...,a]", "index[2d,None,a:,:]", "matrix_transpose/T/mT", "broadcast_arrays", "creation-leaves"}
